@@ -423,9 +423,9 @@ fn gen(rng: &mut Rng, tier: &str) -> Vec<(String, Value)> {
     for rrdp in [false, true] {
         exhaustive("same_key", rrdp, vec![], vec![vec![5], vec![5]], vec![], vec![0, 1], 1);
         exhaustive("same_key_dubious", rrdp, vec![5], vec![vec![5], vec![5]], vec![], vec![0, 1], 1);
-        exhaustive("different_keys", rrdp, vec![], vec![vec![5], vec![9]], vec![], vec![0, 1], if thorough { 1 } else { 97 });
+        exhaustive("different_keys", rrdp, vec![], vec![vec![5], vec![9]], vec![], vec![0, 1], if thorough { 1 } else { 293 });
         // thread 2 is inside its update of 5 (fetch started); 0 and 1 arrive
-        exhaustive("same_key_third_fetching", rrdp, vec![], vec![vec![5], vec![5], vec![5]], vec![2; 5], vec![0, 1, 2], if thorough { 1 } else { 11 });
+        exhaustive("same_key_third_fetching", rrdp, vec![], vec![vec![5], vec![5], vec![5]], vec![2; 5], vec![0, 1, 2], if thorough { 1 } else if rrdp { 47 } else { 7 });
         // thread 0 calls twice
         exhaustive("twice_same_key", rrdp, vec![], vec![vec![5, 5], vec![5]], vec![], vec![0, 1], if thorough { 1 } else { 7 });
     }
@@ -460,4 +460,51 @@ fn gen(rng: &mut Rng, tier: &str) -> Vec<(String, Value)> {
     cases
 }
 
-fn main() { drive(gen, run) }
+//------------ parallel execution: every driver thread talks to its own child process ---------------------------------
+//
+// The rendezvous registry and the event log are process-global, so one process runs one case at a time; the cases
+// are spread over child processes (`c37 worker`: one JSON input per line on stdin, one JSON result per line on stdout).
+
+fn worker_loop() {
+    let stdin = std::io::stdin();
+    let mut line = String::new();
+    loop {
+        line.clear();
+        if stdin.read_line(&mut line).unwrap_or(0) == 0 { break }
+        let input: Value = serde_json::from_str(&line).expect("worker input");
+        let out = run(&input);
+        let mut so = std::io::stdout().lock();
+        writeln!(so, "{}", json!({"obs": out.obs, "coq": out.coq, "nontrivial": out.nontrivial})).unwrap();
+        so.flush().unwrap();
+    }
+}
+
+struct Child { _proc: std::process::Child, stdin: std::process::ChildStdin, stdout: std::io::BufReader<std::process::ChildStdout> }
+
+thread_local! { static CHILD: std::cell::RefCell<Option<Child>> = const { std::cell::RefCell::new(None) }; }
+
+fn run_in_child(input: &Value) -> CaseOut {
+    use std::io::BufRead;
+    CHILD.with(|c| {
+        let mut c = c.borrow_mut();
+        let child = c.get_or_insert_with(|| {
+            let mut p = std::process::Command::new(std::env::current_exe().expect("own path")).arg("worker")
+                .stdin(std::process::Stdio::piped()).stdout(std::process::Stdio::piped()).spawn().expect("spawn worker");
+            let stdin = p.stdin.take().unwrap();
+            let stdout = std::io::BufReader::new(p.stdout.take().unwrap());
+            Child { _proc: p, stdin, stdout }
+        });
+        writeln!(child.stdin, "{}", input).expect("worker gone");
+        child.stdin.flush().expect("worker gone");
+        let mut line = String::new();
+        if child.stdout.read_line(&mut line).unwrap_or(0) == 0 { panic!("machinery: the worker died on input {}", input); }
+        let v: Value = serde_json::from_str(&line).expect("worker output");
+        CaseOut { obs: v["obs"].clone(), coq: v["coq"].as_str().unwrap().to_string(), nontrivial: v["nontrivial"].as_bool().unwrap() }
+    })
+}
+
+fn main() {
+    if std::env::args().nth(1).as_deref() == Some("worker") { worker_loop(); return }
+    let threads = std::env::var("C37_WORKERS").ok().and_then(|s| s.parse().ok()).unwrap_or(8);
+    drive_par(gen, run_in_child, threads)
+}
